@@ -354,7 +354,7 @@ func runFetch(c *harness.Ctx) harness.Result {
 			w.Run()
 			for _, e := range w.UI.Errs {
 				if m := savedRx.FindStringSubmatch(e); m != nil {
-					if pm := regexp.MustCompile(`^(.*\.)[0-9]{3}\.pb\.gz$`).FindStringSubmatch(filepath.Base(m[1])); pm != nil {
+					if pm := regexp.MustCompile(`^(.*\.)[0-9]{3,}\.pb\.gz$`).FindStringSubmatch(filepath.Base(m[1])); pm != nil {
 						prefix = pm[1]
 					}
 				}
@@ -1004,7 +1004,7 @@ func runSaves(c *harness.Ctx) harness.Result {
 	if e != "" {
 		return harness.Violation("%s", e)
 	}
-	pm := regexp.MustCompile(`^(.*\.)[0-9]{3}\.pb\.gz$`).FindStringSubmatch(filepath.Base(first))
+	pm := regexp.MustCompile(`^(.*\.)[0-9]{3,}\.pb\.gz$`).FindStringSubmatch(filepath.Base(first))
 	if pm == nil {
 		return harness.Result{Verdict: harness.Inconclusive, Detail: "unexpected saved name " + first}
 	}
